@@ -129,8 +129,10 @@ func main() {
 		trace      = flag.Bool("trace", false, "trace SSA instructions")
 		list       = flag.Bool("list", false, "list harness functions and exit")
 		params     multiFlag
+		stubs      multiFlag
 	)
 	flag.Var(&params, "param", "k=v harness parameter (repeatable)")
+	flag.Var(&stubs, "stub", "<full function name>=<harness function> : calls to the former run the latter (repeatable)")
 	flag.Parse()
 
 	prog, spkgs, err := loadProgram(*repo, *harnessDir)
@@ -190,6 +192,22 @@ func main() {
 			os.Exit(3)
 		}
 		cfg.Params[kv[:i]] = v
+	}
+	for _, kv := range stubs {
+		i := strings.LastIndexByte(kv, '=')
+		if i < 0 {
+			fmt.Fprintln(os.Stderr, "gosym: bad -stub", kv)
+			os.Exit(3)
+		}
+		sf := target.Func(kv[i+1:])
+		if sf == nil {
+			fmt.Fprintln(os.Stderr, "gosym: stub function not found:", kv[i+1:])
+			os.Exit(3)
+		}
+		if cfg.Stubs == nil {
+			cfg.Stubs = map[string]*ssa.Function{}
+		}
+		cfg.Stubs[kv[:i]] = sf
 	}
 	for _, k := range strings.Split(*known, ",") {
 		if k != "" {
